@@ -89,7 +89,9 @@ LEGAL_NATIVE = {
 }
 ILLEGAL = {
     "onoff": ["maybe", "2", "yes", "on", "-", "nan", "1.0"],
-    "datetime": ["yesterday", "2020-13-45", "x2020", "2020-02-30", "12:30x", "abc"],
+    "datetime": ["yesterday", "2020-13-45", "x2020", "2020-02-30", "12:30x", "abc",
+                 # dates pandas would understand but that do not start with a digit: illegal by the StarTable rule
+                 "Jan 5 2020", "sep-2020", "May 2020", "Mon 5 Jan 2020"],
     "num": ["abc", "1,5", "--1", "1 2", "0x10", "one"],
 }
 ILLEGAL_NATIVE = {
